@@ -186,6 +186,11 @@ func (t *Dense) Outer(other Tensor, opts ...FuncOpt) (retVal *Dense, err error) 
 
 	e := t.e
 
+	// a result tensor that is one of the operands is refused before it is cleared
+	if od, ok := other.(DenseTensor); ok && (sharesWindow(retVal, t) || sharesWindow(retVal, od)) {
+		return nil, errors.Errorf(opFail, "Outer: the result tensor shares its storage with an operand")
+	}
+
 	// DGER does not have any beta. So the values have to be zeroed first if the tensor is to be reused
 	retVal.Zero()
 	if op, ok := e.(OuterProder); ok {
